@@ -435,6 +435,7 @@ func (h *hCtx) buildBatch(c *chainT, ordinary bool) {
 	h.builtMonitor("batch", env, b.BatchNonce, b.BatchTimeout)
 	h.out.Count(fmt.Sprintf("build:batch:ordinary=%v", env))
 	h.registerBatch(c, b, b)
+	h.halfStoredBatch(c, ctx.BlockHeight())
 }
 
 func (h *hCtx) buildOracleSet(c *chainT, ordinary bool) {
